@@ -98,7 +98,11 @@ let parse_sop (s : string) : sop =
   | ["new"; o] -> SNew (nat o)
   | ["app"; o; d] | ["app.st"; o; d] | ["app.std"; o; d] | ["app.view"; o; d] | ["app.u8"; o; d] -> SAppend (nat o, bytes_of_hex d)
   | ["app.cstr"; o; d] | ["app.auto"; o; d] -> SAppend (nat o, strlen_cut (bytes_of_hex d))
-  | ["appc"; o; c; n] -> SAppendChar (nat o, n_of_string c, nat n)
+  | ["appc"; o; c; n] ->
+      (* counts of 2^32 and more (only generated together with an allocation fault on this very step) stand for
+         "a growth request the allocator refuses": the model runs a growing append of 2^13 bytes, armed *)
+      let cnt = (try int_of_string n with _ -> max_int) in
+      SAppendChar (nat o, n_of_string c, nat_of_int (if cnt >= 1 lsl 32 then 1 lsl 13 else cnt))
   | ["shlc"; o; c] -> SAppendChar (nat o, n_of_string c, nat "1")
   | ["trunc"; o; n] -> STruncate (nat o, nat n)
   | ["erase"; o; n] -> SErase (nat o, nat n)
@@ -215,7 +219,7 @@ let parse_top (s : string) : top * string =
     | "del", _ -> TDel (nat 1)
     | _, "throw" :: e :: temps ->
         let ts = List.filter (fun x -> x <> "") (match temps with [t] -> split_on '/' t | _ -> []) in
-        (match List.hd f with "setfail" | "setmfail" | "ctorbuffail" | "fmtmovestd" -> arg := ",arg=" ^ List.nth f 2 | _ -> ());
+        (match List.hd f with "setfail" | "setmfail" | "ctorbuffail" | "fmtmovestd" | "tobuffail" | "tobufvfail" | "tostdfail" -> arg := ",arg=" ^ List.nth f 2 | _ -> ());
         TThrowing (List.map bytes_of_hex ts, exn_of_name e)
     | _ -> failwith ("drv_mem: bad string op " ^ s) in
   (t, !arg)
